@@ -113,7 +113,8 @@ Definition ex_build : list pop :=
   [PAddNode 10 0 0 PInf; PAddNode 11 0 1 (Fin 4); PAddNode 12 0 2 (Fin 6);
    PAddArc 10 11 1 2; PAddArc 11 10 1 3; PAddArc 10 12 3 1; PAddArc 12 10 2 6;
    PAddArc 11 12 1 1; PAddArc 12 11 2 2].
-Definition ex_ops : list pop := ex_build ++ add_all_candidates 3.
+Definition ex_st0 : pstate := prun ex_build (pempty 5 0).
+Definition ex_ops : list pop := ex_build ++ add_all_candidates (num_nodes ex_st0).
 Definition ex_st : pstate := prun ex_ops (pempty 5 0).
 
 Example C08_example_hypotheses :
@@ -121,7 +122,7 @@ Example C08_example_hypotheses :
   proutes ex_st = [[0; 1; 0]; [0; 1; 2; 0]; [0; 2; 0]]%nat /\ pcosts ex_st = [5; 9; 7] /\
   ~ valid_route ex_st [0; 2; 1; 0]%nat.
 Proof.
-  assert (H : stored_current ex_st /\ pool_complete ex_st /\ pg ex_st = pg (prun ex_build (pempty 5 0))).
+  assert (H : stored_current ex_st /\ pool_complete ex_st /\ pg ex_st = pg ex_st0).
   { exact (C08_all_routes_enumerated 5 0 ex_build eq_refl). }
   destruct H as (Hc & Hp & _).
   split; [vm_compute; lia|]. split; [exact Hc|]. split; [exact Hp|].
@@ -186,7 +187,12 @@ Proof.
     - intros j _. destruct j as [|[|[|j]]]; [left|right|left|left]; try reflexivity.
       unfold Zvec_of, vec_of. destruct j; reflexivity. }
   split; [exact Hx|]. split; [rewrite (Hval _ _ Hx Hopt); exact Hcost|].
-  unfold path_sys in Es. vm_compute in Es. inversion Es; subst s. vm_compute. split; reflexivity.
+  assert (Hother : match path_sys ex_st with
+                   | Ok s' => sys_qubo_value s' 21 (Zvec_of [1; 0; 1]) = 12 /\
+                              sys_qubo_value s' 21 (Zvec_of [1; 1; 0]) = 14 + 22
+                   | Err _ => False
+                   end) by (vm_compute; split; reflexivity).
+  rewrite Es in Hother. exact Hother.
 Qed.
 
 (* stored_current is a real hypothesis: the class does not re-validate stored routes.  After
